@@ -932,8 +932,11 @@ pub async fn client_tcp(dict: Arc<Dictionary>, spec: Vec<String>) -> String {
         let mut answered = vec![false; n];
         let mut next = 0usize; // position in perm
         let answer = |h: u32, e: u32| -> Vec<u8> {
-            let mut m = DiameterMessage::new(CommandCode::CreditControl, ApplicationId::CreditControl, 0, h, e, d2.clone());
-            m.add_avp(268, None, 0x40, Unsigned32::new(2001).into());
+            // what the peer reports rotates: success, protocol errors (E bit set), transient and permanent failures, a
+            // redirect - an answer is an answer, and belongs to the future of its request
+            let (rc, ebit) = [(2001u32, false), (3004, true), (2002, false), (3002, true), (5012, true), (4001, false), (3004, false), (3006, true)][(h.wrapping_add(base / 1000) % 8) as usize];
+            let mut m = DiameterMessage::new(CommandCode::CreditControl, ApplicationId::CreditControl, if ebit { 0x20 } else { 0 }, h, e, d2.clone());
+            m.add_avp(268, None, 0x40, Unsigned32::new(rc).into());
             frame(&m)
         };
         loop {
